@@ -174,7 +174,8 @@ def gen_datetime(rng, early_years=True, tcase=True):
         tzs = tzs.lower()
     s = "%04d-%02d-%02d%s%s%s" % (y, m, d, T, ts, tzs)
     py = dt.datetime(y, m, d, h, mi, sec or 0, _micro(frac), tzinfo=tz)
-    return s, "datetime", {"val": s, "py": py, "tz": tz}
+    # the lexer normalises T / Z to upper case (documented, like durations)
+    return s, "datetime", {"val": s.upper(), "py": py, "tz": tz}
 
 
 def gen_duration(rng):
